@@ -232,10 +232,10 @@ spif_mbuff_init_from_fp(spif_mbuff_t self, FILE *fp)
             spif_mbuff_init(self);
             return FALSE;
         }
-        self->len = self->size = file_size;
+        self->size = file_size;
         self->buff = (spif_byteptr_t) MALLOC(self->size);
 
-        if (fread(self->buff, file_size, 1, fp) < 1) {
+        if ((self->len = (spif_memidx_t) fread(self->buff, 1, file_size, fp)) < 1) {
             FREE(self->buff);
             self->len = self->size = 0;
             return FALSE;
@@ -284,10 +284,10 @@ spif_mbuff_init_from_fd(spif_mbuff_t self, int fd)
             FREE(self->buff);
         }
     } else {
-        self->len = self->size = file_size;
+        self->size = file_size;
         self->buff = (spif_byteptr_t) MALLOC(self->size);
 
-        if (read(fd, self->buff, file_size) < 1) {
+        if ((self->len = (spif_memidx_t) read(fd, self->buff, file_size)) < 1) {
             FREE(self->buff);
             self->len = self->size = 0;
             return FALSE;
